@@ -38,6 +38,11 @@ Sugar(e, i) ==
     \* through a value reference is linked before that constraint is resolved when the referenced type sorts before its user
     ELSE IF e.fam = "valref" /\ e.where = "reftype_default" /\ e.early
          THEN Dev(i, "D_C09_default_of_referenced_type", "a DEFAULT literal is typed against a referenced type whose constraint is not resolved yet")
+    \* argument forms of parameterized types, each guarded by the form (and the order of names) it is known for
+    ELSE IF e.fam = "paramarg" /\ e.form = "actual_valref" THEN Dev(i, "D_C09_actual_valref", "a value reference as actual parameter is not resolved")
+    ELSE IF e.fam = "paramarg" /\ e.form = "dummy_shadow" /\ ~e.early THEN Dev(i, "D_C09_dummy_shadow", "a value assignment spelled like a dummy is taken for it")
+    ELSE IF e.fam = "paramarg" /\ e.form = "dummy_constrained" THEN Dev(i, "D_C09_dummy_constrained", "the constraint on a type dummy is dropped")
+    ELSE IF e.fam = "paramarg" /\ e.form = "forward" /\ e.early THEN Dev(i, "D_C09_forward", "dummies handed on to a second template stay unresolved")
     ELSE Report(i, "MISMATCH", "a notation defined by expansion (" \o e.fam \o ") does not compile like its hand-expanded form")
 
 Init == l = 1
